@@ -683,7 +683,7 @@ Proof.
     - simpl. assert (Z : Rsum (map2 (fun c w => c * sqproj w []) cf W) = 0).
       { clear. revert W. induction cf as [|c cf IH]; intros [|w W]; simpl; auto. rewrite IH. unfold sqproj. simpl. ring. }
       rewrite Z. lra.
-    - pose proof (Forall_inv FU) as Lu. pose proof (Forall_inv_tail FU) as FU'. specialize (IH FU').
+    - pose proof (Forall_inv FU) as Lu; cbv beta in Lu. pose proof (Forall_inv_tail FU) as FU'. specialize (IH FU').
       cbn [map Rsum fold_right]. fold (Rsum (map (fun u => Rquad C u) U)).
       fold (Rsum (map (fun u => Rdot u u) U)).
       rewrite r1sum_cons.
@@ -846,8 +846,8 @@ Qed.
 Lemma orth_ok_sound scs W : orth_ok oR scs W = true ->
   forall i j, (i < length W)%nat -> (j < length W)%nat ->
   let d := Rdot (nth i W []) (nth j W []) in
-  (i = j -> Rabs (nth i scs 0 * d - 1) <= tolR 30) /\
-  (i <> j -> nth i scs 0 * nth j scs 0 * (d * d) <= tolR 30 * tolR 30).
+  (i = j -> Rabs (nth i scs 0 * d - 1) <= tolR 20) /\
+  (i <> j -> nth i scs 0 * nth j scs 0 * (d * d) <= tolR 20 * tolR 20).
 Proof.
   unfold orth_ok. intros H i j Hi Hj. cbv zeta.
   pose proof (forallb_seq _ _ (forallb_seq _ _ H i Hi) j Hj) as K. cbv beta zeta in K.
@@ -870,13 +870,13 @@ Proof.
   rewrite dot_Rdot. f_equal; try (apply map_ext; intros r; apply dot_Rdot).
 Qed.
 
-(* projected covariance: sc_i w_i^T C w_i = lambda_i, sc_i sc_j (w_i^T C w_j)^2 = 0, up to 2^-30 T *)
+(* projected covariance: sc_i w_i^T C w_i = lambda_i, sc_i sc_j (w_i^T C w_j)^2 = 0, up to 2^-20 T *)
 Lemma projcov_ok_sound T lams scs C W : length lams = length W ->
   projcov_ok oR T lams scs (G_of oR W (CW_of oR C W)) = true ->
   forall i j, (i < length W)%nat -> (j < length W)%nat ->
   let g := bil (nth i W []) C (nth j W []) in
-  (i = j -> Rabs (nth i scs 0 * g - nth i lams 0) <= tolR 30 * T) /\
-  (i <> j -> nth i scs 0 * nth j scs 0 * (g * g) <= (tolR 30 * T) * (tolR 30 * T)).
+  (i = j -> Rabs (nth i scs 0 * g - nth i lams 0) <= tolR 20 * T) /\
+  (i <> j -> nth i scs 0 * nth j scs 0 * (g * g) <= (tolR 20 * T) * (tolR 20 * T)).
 Proof.
   unfold projcov_ok. intros L H i j Hi Hj. cbv zeta. rewrite L in H.
   pose proof (forallb_seq _ _ (forallb_seq _ _ H i Hi) j Hj) as K. cbv beta zeta in K.
@@ -961,7 +961,7 @@ Theorem leading_subspace_R n p k whiten X mu sg W ev evr Qs invs :
     + (INR (N.to_nat k) - INR (length sg)) * mu0_of oR k lams
     + (INR (N.to_nat k) * tolR 17 + tolR 20) * trace oR C.
 Proof.
-  cbv zeta. unfold pca_checks. cbv zeta. simpl k_shape. simpl k_coefs. simpl k_bound. simpl k_M.
+  cbv zeta. unfold pca_checks. cbv zeta. cbn [k_shape k_coefs k_bound k_M].
   intros Hs Hc Hb HP U HO FU LU.
   destruct (shape_ok_sound p k sg W Hs) as (LW & _ & FW).
   pose proof (ky_fan_bound p _ _ _ _ U HP (rect_cov n p X) FW (coefs_ok_sound _ Hc) HO FU) as KF.
@@ -969,8 +969,10 @@ Proof.
   rewrite LU in KF.
   assert (EL : length (scs_of oR whiten (lams_of oR n sg)) = length sg).
   { unfold scs_of, lams_of. rewrite !map_length. reflexivity. }
-  rewrite EL in Hb. simpl in Hb. rewrite Nnat.Nat2N.id in Hb.
-  unfold tolR. simpl. lra.
+  rewrite EL in Hb.
+  change (d_lead oR) with (tolR 17) in *. change (d_small oR) with (tolR 20) in *.
+  cbn [R_ops of_N add sub mul] in Hb, KF. rewrite Nnat.Nat2N.id in Hb.
+  lra.
 Qed.
 
 (** the same for the exact dyadic evaluation on the implementation's output *)
@@ -996,7 +998,7 @@ Proof.
                 (map D2R ev) (map D2R evr) (map (map D2R) Qs) (map (map D2R) invs)) as R.
   cbv zeta in R. rewrite map_length in R. apply R; auto.
   rewrite <- EM. apply (lead_psd_sound p _ _ HL). rewrite EM.
-  unfold pca_checks. cbv zeta. simpl k_M.
+  unfold pca_checks. cbv zeta. cbn [k_M].
   destruct (shape_ok_sound p k _ _ Hs) as (_ & _ & FW).
   apply rect_Mlead; [apply rect_cov|exact FW].
 Qed.
@@ -1013,8 +1015,11 @@ Proof.
   pose proof (forallb_combine_nth _ 0 [] mu (cols oR p X) H2 j) as K.
   unfold cols in K at 1. rewrite map_length, seq_length, H1 in K. specialize (K Hj Hj).
   cbv beta in K. simpl fst in K. simpl snd in K. apply absle_R in K.
-  unfold cols in K. rewrite (nth_map_lt (fun j => column oR j X) (seq 0 p) 0%nat [] j) in K by (rewrite seq_length; exact Hj).
-  rewrite seq_nth in K by exact Hj. simpl plus in K.
+  assert (E : nth j (cols oR p X) [] = column oR j X).
+  { unfold cols. etransitivity.
+    - exact (nth_map_lt (fun j => column oR j X) (seq 0 p) 0%nat [] j ltac:(rewrite seq_length; exact Hj)).
+    - rewrite seq_nth by exact Hj. reflexivity. }
+  rewrite E in K.
   unfold sumabs in K. rewrite !ssum_Rsum in K. exact K.
 Qed.
 
@@ -1046,7 +1051,7 @@ Qed.
 
 Lemma close_rows_sound t a b mu : close_rows oR t a b mu = true ->
   forall j, (j < length a)%nat -> (j < length b)%nat -> (j < length mu)%nat ->
-  Rabs (nth j a 0 - nth j b 0) <= tolR 30 * (t + Rabs (nth j mu 0)).
+  Rabs (nth j a 0 - nth j b 0) <= tolR 20 * (t + Rabs (nth j mu 0)).
 Proof.
   unfold close_rows. intros H j Ha Hb Hm.
   pose proof (forallb_combine_nth _ (0, 0) 0 (combine a b) mu H j) as K.
@@ -1057,7 +1062,7 @@ Proof.
   rewrite E in K. apply absle_R in K. exact K.
 Qed.
 
-(* every query row: inverse_transform (predict x) is within 2^-30 (|x - mu|_1 + |mu_j|) of the
+(* every query row: inverse_transform (predict x) is within 2^-20 (|x - mu|_1 + |mu_j|) of the
    orthogonal projection of x onto the component subspace about the mean (and of x itself when
    all p components are present) *)
 Lemma roundtrip_ok_sound p scs W mu Qs invs : roundtrip_ok oR p scs W mu Qs invs = true ->
@@ -1068,9 +1073,9 @@ Lemma roundtrip_ok_sound p scs W mu Qs invs : roundtrip_ok oR p scs W mu Qs invs
     let scale := Rsum (map Rabs (vsub oR x mu)) in
     length inv = p /\ length x = p /\
     (forall j, (j < p)%nat -> (j < length P)%nat -> (j < length mu)%nat ->
-       Rabs (nth j inv 0 - nth j P 0) <= tolR 30 * (scale + Rabs (nth j mu 0))) /\
+       Rabs (nth j inv 0 - nth j P 0) <= tolR 20 * (scale + Rabs (nth j mu 0))) /\
     (length W = p -> forall j, (j < p)%nat -> (j < length mu)%nat ->
-       Rabs (nth j inv 0 - nth j x 0) <= tolR 30 * (scale + Rabs (nth j mu 0))).
+       Rabs (nth j inv 0 - nth j x 0) <= tolR 20 * (scale + Rabs (nth j mu 0))).
 Proof.
   unfold roundtrip_ok. intros H. apply andb_true_iff in H as [H1 H2]. apply Nat.eqb_eq in H1. split; auto.
   intros t Ht. cbv zeta.
@@ -1084,3 +1089,397 @@ Proof.
     + apply negb_true_iff, Nat.eqb_neq in K4. contradiction.
     + apply (close_rows_sound _ _ _ _ K4); auto; lia.
 Qed.
+
+(* ========================================================================================== *)
+(** * Part D: the model of pca.rs over the reals (pattern A) *)
+
+(** ** summation orders collapse over R *)
+Lemma fold_left_Rplus l : forall a, fold_left Rplus l a = a + Rsum l.
+Proof. induction l as [|x l IH]; intros a; simpl; [ring|]. rewrite IH. ring. Qed.
+Lemma seq_sum_R l : seq_sum oR l = Rsum l.
+Proof. unfold seq_sum. simpl. rewrite fold_left_Rplus. ring. Qed.
+
+Lemma chunks8_R : forall n xs p, (length xs <= n)%nat -> length p = 8%nat ->
+  let r := chunks8 oR xs p in
+  length (fst r) = 8%nat /\ Rsum (fst r) + Rsum (snd r) = Rsum p + Rsum xs.
+Proof.
+  induction n as [n IH] using lt_wf_ind. intros xs p Ln Lp.
+  destruct xs as [|x0 [|x1 [|x2 [|x3 [|x4 [|x5 [|x6 [|x7 t]]]]]]]]; cbn [chunks8 fst snd]; try (split; [exact Lp | reflexivity]).
+  destruct p as [|p0 [|p1 [|p2 [|p3 [|p4 [|p5 [|p6 [|p7 [|? ?]]]]]]]]]; simpl in Lp; try discriminate.
+  simpl in Ln. cbn [combine map fst snd].
+  destruct (IH (length t) ltac:(lia) t
+              [add oR p0 x0; add oR p1 x1; add oR p2 x2; add oR p3 x3; add oR p4 x4; add oR p5 x5; add oR p6 x6; add oR p7 x7]
+              (le_n _) eq_refl) as [L E].
+  split; [exact L|]. rewrite E. simpl. ring.
+Qed.
+Lemma usum_R l : usum oR l = Rsum l.
+Proof.
+  unfold usum.
+  pose proof (chunks8_R (length l) l [zero oR; zero oR; zero oR; zero oR; zero oR; zero oR; zero oR; zero oR] (le_n _) eq_refl) as [L E].
+  destruct (chunks8 oR l _) as [p rest]. cbn [fst snd] in L, E.
+  destruct p as [|p0 [|p1 [|p2 [|p3 [|p4 [|p5 [|p6 [|p7 [|? ?]]]]]]]]]; simpl in L; try discriminate.
+  simpl. rewrite fold_left_Rplus. simpl in E. lra.
+Qed.
+Lemma map2_mul_Rsum a : forall b, Rsum (map2 Rmult a b) = Rdot a b.
+Proof. induction a as [|x a IH]; intros [|y b]; simpl; auto. rewrite IH. reflexivity. Qed.
+Lemma row_dot_R c a b : row_dot oR c a b = Rdot a b.
+Proof. unfold row_dot. destruct c; [rewrite usum_R | rewrite seq_sum_R]; apply map2_mul_Rsum. Qed.
+
+(** ** guards: an empty dataset or an embedding size outside 1..p is an error, anything else is
+       handed to the solver *)
+Lemma fit_guards {F} (o : NumOps F) floor svd cm wh n p k X :
+  (n = 0%N -> fit o floor svd cm wh n p k X = FitErrNotEnoughSamples) /\
+  (n <> 0%N -> (k = 0%N \/ (p < k)%N) -> fit o floor svd cm wh n p k X = FitErrEmbeddingTooSmall k) /\
+  (n <> 0%N -> (1 <= k)%N -> (k <= p)%N ->
+     match svd (centre o X (mean_axis0 o cm n (N.to_nat p) X)) k with
+     | None => fit o floor svd cm wh n p k X = FitErrSolver
+     | Some _ => exists m, fit o floor svd cm wh n p k X = FitOk m /\ nsamples m = n
+                           /\ pmean m = mean_axis0 o cm n (N.to_nat p) X
+     end).
+Proof.
+  unfold fit. repeat split.
+  - intros ->. reflexivity.
+  - intros Hn Hk. apply N.eqb_neq in Hn. rewrite Hn.
+    destruct Hk as [->|Hk]; [rewrite orb_true_r; reflexivity|].
+    apply N.ltb_lt in Hk. rewrite Hk. reflexivity.
+  - intros Hn H1 H2. apply N.eqb_neq in Hn. rewrite Hn.
+    assert (E1 : N.ltb p k = false) by (apply N.ltb_ge; exact H2).
+    assert (E2 : N.eqb k 0 = false) by (apply N.eqb_neq; lia).
+    rewrite E1, E2. simpl.
+    destruct (svd _ k) as [[s vt]|]; [|reflexivity].
+    eexists. split; [reflexivity|]. split; reflexivity.
+Qed.
+
+(** ** accessors *)
+Lemma explained_variance_is_lams (m : @pca R) : explained_variance oR m = lams_of oR (nsamples m) (sigma m).
+Proof. reflexivity. Qed.
+
+Lemma Rsum_map_div l s : Rsum (map (fun e => e / s) l) = Rsum l / s.
+Proof. induction l as [|a l IH]; simpl; [unfold Rdiv; ring|]. rewrite IH. unfold Rdiv. ring. Qed.
+
+Lemma ratio_proportional (m : @pca R) :
+  let ev := explained_variance oR m in
+  let evr := explained_variance_ratio oR m in
+  Rsum ev <> 0 ->
+  length evr = length ev /\
+  (forall i, nth i evr 0 * Rsum ev = nth i ev 0) /\ Rsum evr = 1.
+Proof.
+  cbv zeta. unfold explained_variance_ratio. rewrite usum_R. intros NZ.
+  set (ev := explained_variance oR m) in *. repeat split.
+  - apply map_length.
+  - intros i. destruct (Nat.lt_ge_cases i (length ev)) as [Hi|Hi].
+    + rewrite (nth_map_lt (fun e => div oR e (Rsum ev)) ev 0 0 i Hi). simpl. field. exact NZ.
+    + rewrite !nth_overflow by (try rewrite map_length; exact Hi). ring.
+  - simpl. rewrite Rsum_map_div. field. exact NZ.
+Qed.
+
+Lemma ratio_nonneg (m : @pca R) : (2 <= nsamples m)%N ->
+  Forall (fun e => 0 <= e) (explained_variance oR m).
+Proof.
+  intros Hn. unfold explained_variance. apply Forall_forall. intros e He.
+  apply in_map_iff in He as (s & <- & _). simpl.
+  assert (1 <= INR (N.to_nat (nsamples m)) - 1).
+  { assert (2 <= N.to_nat (nsamples m))%nat by lia. apply le_INR in H. simpl in H. lra. }
+  apply Rmult_le_pos; [nra|]. left. apply Rinv_0_lt_compat. lra.
+Qed.
+
+(** ** whitening: if the raw pairs diagonalise the covariance with variances sigma_i^2/(n-1)
+       (which the checker certifies per run), the whitened components give identity covariance *)
+Lemma Rdot_scale_r c a : forall x, Rdot (map (fun v => v * c) a) x = c * Rdot a x.
+Proof. induction a as [|v a IH]; intros [|y x]; simpl; try ring. rewrite IH. ring. Qed.
+Lemma bil_scale_l c z M x : bil (map (fun v => v * c) z) M x = c * bil z M x.
+Proof. unfold bil. apply Rdot_scale_r. Qed.
+Lemma bil_scale_r c z M x : bil z M (map (fun v => v * c) x) = c * bil z M x.
+Proof.
+  unfold bil. revert z. induction M as [|r M IH]; intros [|z0 z]; simpl; try ring.
+  rewrite IH. rewrite (Rdot_comm r), Rdot_scale_r, (Rdot_comm x r). ring.
+Qed.
+Lemma whiten_rows_nth cs : forall vt sg i, (i < length vt)%nat -> (i < length sg)%nat ->
+  nth i (whiten_rows oR cs vt sg) [] = map (fun v => v * (cs / nth i sg 0)) (nth i vt []).
+Proof.
+  induction vt as [|r vt IH]; intros [|s sg] [|i] Hv Hs; simpl in *; try lia; auto.
+  apply IH; lia.
+Qed.
+
+Theorem whitening_identity_covariance (n : N) (C vt : list (list R)) (sg : list R) :
+  (2 <= n)%N -> length vt = length sg -> Forall (fun s => 0 < s) sg ->
+  (forall i j, (i < length sg)%nat -> (j < length sg)%nat ->
+     bil (nth i vt []) C (nth j vt []) = if Nat.eqb i j then nth i sg 0 * nth i sg 0 / (INR (N.to_nat n) - 1) else 0) ->
+  let W := whiten_rows oR (sqrt oR (sub oR (of_N oR n) (one oR))) vt sg in
+  forall i j, (i < length sg)%nat -> (j < length sg)%nat ->
+    bil (nth i W []) C (nth j W []) = if Nat.eqb i j then 1 else 0.
+Proof.
+  intros Hn L Fs HD W i j Hi Hj. unfold W.
+  rewrite !whiten_rows_nth by lia. rewrite bil_scale_l, bil_scale_r, (HD i j Hi Hj).
+  simpl.
+  assert (N1 : 1 <= INR (N.to_nat n) - 1).
+  { assert (2 <= N.to_nat n)%nat by lia. apply le_INR in H. simpl in H. lra. }
+  destruct (Nat.eqb i j) eqn:E; [|ring].
+  apply Nat.eqb_eq in E. subst j.
+  rewrite Forall_forall in Fs. pose proof (Fs (nth i sg 0) (nth_In _ _ Hi)) as Ps.
+  set (s := nth i sg 0) in *. set (q := INR (N.to_nat n) - 1) in *.
+  assert (SQ : R_sqrt.sqrt q * R_sqrt.sqrt q = q) by (apply sqrt_sqrt; lra).
+  unfold Rdiv. 
+  transitivity ((R_sqrt.sqrt q * R_sqrt.sqrt q) * (/ s * / s) * (s * s * / q)); [ring|].
+  rewrite SQ. field. lra.
+Qed.
+
+(** ** round trip: inverse_transform (predict x) is the orthogonal projection of x onto the span
+       of the components about the mean *)
+Fixpoint orthogonal (W : list (list R)) : Prop :=
+  match W with
+  | [] => True
+  | w :: W' => Rdot w w <> 0 /\ Forall (fun v => Rdot w v = 0) W' /\ orthogonal W'
+  end.
+(* the coefficients inverse_transform(predict(.)) uses: (d . w_i) / (w_i . w_i) *)
+Definition pcoefs (W : list (list R)) (d : list R) : list R := map (fun w => Rdot d w / Rdot w w) W.
+
+Lemma map2_map_map {A B1 B2 C} (g : B1 -> B2 -> C) (f1 : A -> B1) (f2 : A -> B2) l :
+  map2 g (map f1 l) (map f2 l) = map (fun a => g (f1 a) (f2 a)) l.
+Proof. induction l as [|a l IH]; simpl; auto. rewrite IH. reflexivity. Qed.
+
+Lemma roundtrip_unfold (m : @pca R) x :
+  inverse_row oR m (predict_row oR m x)
+  = vadd oR (lincomb oR (length (pmean m)) (pcoefs (embedding m) (vsub oR x (pmean m))) (embedding m)) (pmean m).
+Proof.
+  unfold inverse_row, inverse_coefs, predict_row, sq_norms, pcoefs. f_equal. f_equal.
+  rewrite map2_map_map. apply map_ext. intros w. rewrite row_dot_R, dot_Rdot. reflexivity.
+Qed.
+
+Lemma vadd_len a : forall b, length a = length b -> length (vadd oR a b) = length a.
+Proof. apply map2_len. Qed.
+Lemma lincomb_len p c : forall W, Forall (fun w => length w = p) W -> length (lincomb oR p c W) = p.
+Proof.
+  induction c as [|ci c IH]; intros [|w W] FW; cbn [lincomb]; try apply repeat_length.
+  pose proof (Forall_inv FW) as Lw; cbv beta in Lw. pose proof (Forall_inv_tail FW) as FW'.
+  unfold vadd. rewrite map2_len; rewrite map_length; [exact Lw|]. rewrite IH; auto.
+Qed.
+Lemma Rdot_vadd v a : forall b, length a = length b -> Rdot v (vadd oR a b) = Rdot v a + Rdot v b.
+Proof.
+  intros b L. rewrite (Rdot_comm v), (Rdot_comm v a), (Rdot_comm v b). apply Rdot_map2_add. exact L.
+Qed.
+Lemma Rdot_vsub v a : forall b, length a = length b -> Rdot v (vsub oR a b) = Rdot v a - Rdot v b.
+Proof.
+  intros b L. rewrite (Rdot_comm v), (Rdot_comm v a), (Rdot_comm v b). apply Rdot_map2_sub. exact L.
+Qed.
+Lemma Rdot_scale' c a x : Rdot (map (fun v => mul oR c v) a) x = c * Rdot a x.
+Proof. exact (Rdot_scale c a x). Qed.
+Lemma Rdot_lincomb p v c : forall W, Forall (fun w => length w = p) W ->
+  Rdot v (lincomb oR p c W) = Rsum (map2 (fun ci w => ci * Rdot v w) c W).
+Proof.
+  induction c as [|ci c IH]; intros [|w W] FW; cbn [lincomb map2 Rsum fold_right];
+    try (rewrite (Rdot_comm v); apply Rdot_repeat0).
+  pose proof (Forall_inv FW) as Lw; cbv beta in Lw. pose proof (Forall_inv_tail FW) as FW'.
+  rewrite Rdot_vadd by (rewrite map_length, lincomb_len; auto).
+  rewrite (IH W FW'). rewrite (Rdot_comm v (map _ w)). rewrite (Rdot_scale' ci w v), (Rdot_comm w v). reflexivity.
+Qed.
+Lemma lincomb_perp p v c : forall W, Forall (fun w => length w = p) W -> Forall (fun w => Rdot v w = 0) W ->
+  Rdot v (lincomb oR p c W) = 0.
+Proof.
+  intros W FW FP. rewrite (Rdot_lincomb p) by exact FW. revert W FW FP.
+  induction c as [|ci c IH]; intros [|w W] FW FP; simpl; auto.
+  rewrite (Forall_inv FP). rewrite IH; [ring| exact (Forall_inv_tail FW) | exact (Forall_inv_tail FP)].
+Qed.
+
+(* residual of d after removing its components along W is orthogonal to every row of W *)
+Lemma residual_perp p : forall W d, orthogonal W -> Forall (fun w => length w = p) W -> length d = p ->
+  Forall (fun w => Rdot w (vsub oR d (lincomb oR p (pcoefs W d) W)) = 0) W.
+Proof.
+  induction W as [|w W IH]; intros d HO FW Ld; [constructor|].
+  destruct HO as (Hww & Hperp & HO). pose proof (Forall_inv FW) as Lw; cbv beta in Lw. pose proof (Forall_inv_tail FW) as FW'.
+  set (c0 := Rdot d w / Rdot w w).
+  assert (LL : length (lincomb oR p (pcoefs W d) W) = p) by (apply lincomb_len; exact FW').
+  change (pcoefs (w :: W) d) with (c0 :: pcoefs W d). cbn [lincomb].
+  assert (Ltot : length (vadd oR (map (fun v => mul oR c0 v) w) (lincomb oR p (pcoefs W d) W)) = p).
+  { rewrite vadd_len; rewrite map_length; [exact Lw|]. rewrite lincomb_len; [exact Lw | exact FW']. }
+  constructor.
+  - rewrite Rdot_vsub by lia. rewrite Rdot_vadd by (rewrite map_length; lia).
+    rewrite (lincomb_perp p w _ W FW' Hperp).
+    rewrite (Rdot_comm w (map _ w)), (Rdot_scale' c0 w w). unfold c0. rewrite (Rdot_comm w d). field. exact Hww.
+  - (* rows of W: the coefficients of d and of d' = d - c0 w agree *)
+    set (d' := vsub oR d (map (fun v => mul oR c0 v) w)).
+    assert (Ld' : length d' = p) by (unfold d', vsub; rewrite map2_len; rewrite ?map_length; lia).
+    assert (Ec : pcoefs W d' = pcoefs W d).
+    { unfold pcoefs. apply map_ext_in. intros v Hv. f_equal.
+      unfold d'. rewrite (Rdot_comm _ v), Rdot_vsub by (rewrite map_length; lia).
+      rewrite (Rdot_comm v (map _ w)), (Rdot_scale' c0 w v).
+      rewrite Forall_forall in Hperp. rewrite (Hperp v Hv). rewrite (Rdot_comm v d). ring. }
+    pose proof (IH d' HO FW' Ld') as R. rewrite Ec in R.
+    apply Forall_forall. intros v Hv. rewrite Forall_forall in R. specialize (R v Hv).
+    rewrite Forall_forall in FW'. pose proof (FW' v Hv) as Lv.
+    rewrite Rdot_vsub in R by lia. rewrite Rdot_vsub by lia. rewrite Rdot_vadd by (rewrite map_length; lia).
+    unfold d' in R. rewrite Rdot_vsub in R by (rewrite map_length; lia). lra.
+Qed.
+
+Theorem roundtrip_is_projection (m : @pca R) (x : list R) :
+  let p := length (pmean m) in
+  let W := embedding m in
+  let y := inverse_row oR m (predict_row oR m x) in
+  orthogonal W -> Forall (fun w => length w = p) W -> length x = p ->
+  (* y - mean is a linear combination of the components ... *)
+  y = vadd oR (lincomb oR p (pcoefs W (vsub oR x (pmean m))) W) (pmean m) /\
+  (* ... and x - y is orthogonal to every component *)
+  Forall (fun w => Rdot w (vsub oR x y) = 0) W.
+Proof.
+  cbv zeta. intros HO FW Lx. split; [apply roundtrip_unfold|].
+  rewrite roundtrip_unfold.
+  set (p := length (pmean m)) in *. set (mu := pmean m) in *. set (W := embedding m) in *.
+  set (d := vsub oR x mu).
+  assert (Ld : length d = p) by (unfold d, vsub; rewrite map2_len; lia).
+  pose proof (residual_perp p W d HO FW Ld) as R.
+  assert (LL : length (lincomb oR p (pcoefs W d) W) = p) by (apply lincomb_len; exact FW).
+  apply Forall_forall. intros w Hw. rewrite Forall_forall in R. specialize (R w Hw).
+  rewrite Forall_forall in FW. pose proof (FW w Hw) as Lw.
+  rewrite Rdot_vsub in R by lia. unfold d in R at 1. rewrite Rdot_vsub in R by (fold p; lia).
+  rewrite Rdot_vsub by (rewrite vadd_len; fold p; lia). rewrite Rdot_vadd by (fold p; lia). lra.
+Qed.
+
+Lemma vsub_vadd (L : list R) : forall mu, length L = length mu -> vsub oR (vadd oR L mu) mu = L.
+Proof.
+  unfold vsub, vadd. induction L as [|l L IH]; intros [|u mu] E; simpl in *; try discriminate; auto.
+  rewrite IH by lia. f_equal. ring.
+Qed.
+
+Lemma pcoefs_lincomb p : forall W a, orthogonal W -> Forall (fun w => length w = p) W -> length a = length W ->
+  pcoefs W (lincomb oR p a W) = a.
+Proof.
+  induction W as [|w W IH]; intros [|a0 a] HO FW La; simpl in La; try discriminate; auto.
+  destruct HO as (Hww & Hperp & HO). pose proof (Forall_inv FW) as Lw; cbv beta in Lw. pose proof (Forall_inv_tail FW) as FW'.
+  assert (LL : length (lincomb oR p a W) = p) by (apply lincomb_len; exact FW').
+  cbn [pcoefs map lincomb]. f_equal.
+  - rewrite (Rdot_comm _ w), Rdot_vadd by (rewrite map_length; lia).
+    rewrite (lincomb_perp p w a W FW' Hperp). rewrite (Rdot_comm w (map _ w)), (Rdot_scale' a0 w w). field. exact Hww.
+  - fold (pcoefs W (vadd oR (map (fun v => mul oR a0 v) w) (lincomb oR p a W))).
+    rewrite <- (IH a HO FW') at 2 by lia. unfold pcoefs. apply map_ext_in. intros v Hv. f_equal.
+    rewrite Forall_forall in FW'. pose proof (FW' v Hv) as Lv.
+    rewrite (Rdot_comm _ v), Rdot_vadd by (rewrite map_length; lia).
+    rewrite (Rdot_comm v (map _ w)), (Rdot_scale' a0 w v). rewrite Forall_forall in Hperp. rewrite (Hperp v Hv).
+    rewrite (Rdot_comm v). ring.
+Qed.
+
+(* on the affine subspace mean + span(components) the round trip is the identity; for k = p
+   orthogonal non-zero components that subspace is the whole space *)
+Theorem roundtrip_identity_on_span (m : @pca R) (a : list R) :
+  let p := length (pmean m) in
+  let W := embedding m in
+  let x := vadd oR (lincomb oR p a W) (pmean m) in
+  orthogonal W -> Forall (fun w => length w = p) W -> length a = length W ->
+  inverse_row oR m (predict_row oR m x) = x.
+Proof.
+  cbv zeta. intros HO FW La. rewrite roundtrip_unfold.
+  rewrite vsub_vadd by (rewrite lincomb_len; auto).
+  rewrite (pcoefs_lincomb _ _ a HO FW La). reflexivity.
+Qed.
+
+Theorem projection_idempotent (m : @pca R) (x : list R) :
+  let p := length (pmean m) in
+  let W := embedding m in
+  let P := fun z => inverse_row oR m (predict_row oR m z) in
+  orthogonal W -> Forall (fun w => length w = p) W -> length x = p ->
+  P (P x) = P x.
+Proof.
+  cbv beta zeta. intros HO FW Lx. rewrite (roundtrip_unfold m x).
+  apply (roundtrip_identity_on_span m); auto. unfold pcoefs. apply map_length.
+Qed.
+
+(** ** the bilinear form of the sample covariance IS the sample covariance of the projected data:
+       u^T C v = sum_t ((x_t - m).u) ((x_t - m).v) / (n - 1) *)
+Definition gramN (cs : list (list R)) : list (list R) := map (fun ca => map (fun cb => Rdot ca cb) cs) cs.
+Definition cross_moment (rows : list (list R)) (u v : list R) : R :=
+  Rsum (map (fun x => Rdot x u * Rdot x v) rows).
+
+Lemma map_nth_seq {A} (g : R -> A) x : map (fun a => g (nth a x 0)) (seq 0 (length x)) = map g x.
+Proof.
+  induction x as [|x0 x IH]; simpl; auto. f_equal. rewrite <- seq_shift, map_map. exact IH.
+Qed.
+Lemma cols_cons p x rows : cols oR p (x :: rows) = map (fun j => nth j x 0 :: column oR j rows) (seq 0 p).
+Proof. reflexivity. Qed.
+Lemma gramN_cols_cons p x rows : length x = p ->
+  gramN (cols oR p (x :: rows)) = madd oR (outer oR x) (gramN (cols oR p rows)).
+Proof.
+  intros Lx. rewrite cols_cons. unfold gramN, cols, madd, outer. rewrite !map_map.
+  rewrite <- (map_nth_seq (fun a => map (fun b => mul oR a b) x) x), Lx.
+  rewrite map2_map_map. apply map_ext. intros a. rewrite !map_map.
+  rewrite <- (map_nth_seq (fun b => mul oR (nth a x 0) b) x), Lx.
+  rewrite map2_map_map. apply map_ext. intros b. reflexivity.
+Qed.
+Lemma rect_gramN_cols p rows : rect p p (gramN (cols oR p rows)).
+Proof.
+  unfold gramN, cols. split; [rewrite !map_length, seq_length; reflexivity|].
+  apply Forall_forall. intros r Hr. apply in_map_iff in Hr as (c & <- & _).
+  rewrite !map_length, seq_length. reflexivity.
+Qed.
+Lemma bil_gramN p u v : forall rows, Forall (fun x => length x = p) rows ->
+  bil u (gramN (cols oR p rows)) v = cross_moment rows u v.
+Proof.
+  unfold cross_moment. induction rows as [|x rows IH]; intros FR.
+  - cbn [map Rsum fold_right].
+    assert (E : gramN (cols oR p []) = repeat (repeat 0 p) p).
+    { unfold gramN, cols, column. cbn [map].
+      assert (K : forall s n, map (fun _ : nat => @nil R) (seq s n) = repeat [] n).
+      { intros s n. revert s. induction n as [|n IHn]; intros s; simpl; auto. rewrite IHn. reflexivity. }
+      rewrite K. rewrite map_repeat'. f_equal. rewrite map_repeat'. reflexivity. }
+    rewrite E. apply bil_zeros_rows.
+  - pose proof (Forall_inv FR) as Lx; cbv beta in Lx. pose proof (Forall_inv_tail FR) as FR'.
+    rewrite (gramN_cols_cons p x rows Lx).
+    rewrite (bil_madd p p); [| rewrite <- Lx; apply rect_outer | apply rect_gramN_cols].
+    rewrite bil_outer, (IH FR'). cbn [map Rsum fold_right]. rewrite (Rdot_comm u x). reflexivity.
+Qed.
+Lemma gram_scale n1 cs : gram oR n1 cs = mscale oR (/ n1) (gramN cs).
+Proof.
+  unfold gram, mscale, gramN. rewrite map_map. apply map_ext. intros ca. rewrite map_map. apply map_ext.
+  intros cb. rewrite dot_Rdot. simpl. unfold Rdiv. ring.
+Qed.
+
+Theorem projected_covariance_is_bilinear_form (n : N) (p : nat) (X : list (list R)) (u v : list R) :
+  Forall (fun x => length x = p) X ->
+  let m := emean oR (of_N oR n) (cols oR p X) in          (* exact column means *)
+  let Xc := centre oR X m in
+  length m = p ->
+  bil u (cov oR n p X) v = cross_moment Xc u v / (INR (N.to_nat n) - 1).
+Proof.
+  cbv zeta. intros FX Lm. unfold cov. rewrite gram_scale, bil_mscale, (bil_gramN p).
+  - simpl. unfold Rdiv. ring.
+  - unfold centre. apply Forall_forall. intros r Hr. apply in_map_iff in Hr as (x & <- & Hx).
+    rewrite Forall_forall in FX. unfold vsub. rewrite map2_len; rewrite (FX x Hx); auto.
+Qed.
+
+(* ========================================================================================== *)
+(** * non-vacuity: a concrete fit satisfying every premise used above
+      five records in the plane, column means 0, sample covariance diag(1, 1/4) *)
+Definition exX : list (list dq) :=
+  map (map (fun z => mkdq z (-1) 1)) [[2; 1]; [-2; 1]; [2; -1]; [-2; -1]; [0; 0]]%Z.
+Definition exq (z : Z) : dq := mkdq z 0 1.
+Definition ex_checks := pca_checks DQ_ops 5 2 1 false exX [exq 0; exq 0] [exq 2] [[exq 1; exq 0]]
+                                   [exq 1] [exq 1] exX
+                                   (map (map (fun z => mkdq z (-1) 1)) [[2; 0]; [-2; 0]; [2; 0]; [-2; 0]; [0; 0]]%Z).
+Example ex_all_conjuncts :
+  k_mean ex_checks = true /\ k_shape ex_checks = true /\ k_sigma ex_checks = true /\ k_orth ex_checks = true /\
+  k_projcov ex_checks = true /\ k_ev ex_checks = true /\ k_ratio ex_checks = true /\ k_roundtrip ex_checks = true /\
+  k_resid ex_checks = true /\ k_coefs ex_checks = true /\ k_bound ex_checks = true /\
+  lead_psd 2 (k_T ex_checks) (k_M ex_checks) = true.
+Proof. vm_compute. repeat split. Qed.
+(* the second axis alone is an orthonormal direction but not the leading one: the certificate refuses it *)
+Definition ex_checks_wrong := pca_checks DQ_ops 5 2 1 false exX [exq 0; exq 0] [exq 1] [[exq 0; exq 1]]
+                                   [mkdq 1 (-2) 1] [exq 1] [] [].
+Example ex_wrong_axis_rejected :
+  k_resid ex_checks_wrong = true /\ lead_psd 2 (k_T ex_checks_wrong) (k_M ex_checks_wrong) = false.
+Proof. vm_compute. split; reflexivity. Qed.
+
+Example ex_orthonormal_frame : orthonormal [[1; 0]] /\ Forall (fun u => length u = 2%nat) [[1; 0]].
+Proof. simpl. repeat split; auto; try lra. Qed.
+Example ex_orthogonal_components : orthogonal [[2; 0]; [0; 3]].
+Proof. simpl. repeat split; auto; try lra. constructor; [lra|constructor]. Qed.
+Example ex_whitening_premise :
+  forall i j, (i < 2)%nat -> (j < 2)%nat ->
+  bil (nth i [[1; 0]; [0; 1]] []) [[1; 0]; [0; / 4]] (nth j [[1; 0]; [0; 1]] [])
+  = if Nat.eqb i j then nth i [2; 1] 0 * nth i [2; 1] 0 / (INR (N.to_nat 5) - 1) else 0.
+Proof.
+  intros i j Hi Hj. destruct i as [|[|i]]; destruct j as [|[|j]]; try lia; unfold bil; simpl; field.
+Qed.
+Example ex_hom_inhabited : D2R (dq_div (exq 3) (exq 4)) = 3 / 4.
+Proof. rewrite D2R_div. unfold D2R; simpl. field. Qed.
+Example ex_cross_moment_premises :
+  Forall (fun x => length x = 2%nat) [[1; 0]; [-1; 0]] /\
+  length (emean oR (of_N oR 2) (cols oR 2 [[1; 0]; [-1; 0]])) = 2%nat.
+Proof. split; [repeat constructor | reflexivity]. Qed.
